@@ -68,6 +68,10 @@ def text(draw, maxlines=6, pool=None, exotic=None):
     for _ in range(n):
         parts.append(_line(draw, pool))
         parts.append(draw(st.sampled_from(eols)))
+    if n and draw(st.sampled_from(range(40))) == 20:
+        # the text shows a `git diff` of files without final newline: git's own marker line, several times
+        k = draw(st.integers(0, len(parts) // 2)) * 2
+        parts[k:k] = ["\\ No newline at end of file", "\n"] * draw(st.integers(2, 4))
     if parts and draw(st.integers(0, 2)) == 0:
         parts.pop()   # no final newline (the usual shape of a cell source)
     return "".join(parts)
